@@ -1,5 +1,5 @@
 """Property -> harnesses registry."""
-import h_doc, h_c13, h_lib, h_squash
+import h_doc, h_c13, h_lib, h_squash, h_pos
 
 def doc(prog, tier):
     return h_doc.DocHarness(prog, tier)
@@ -45,6 +45,13 @@ def squash_chains(prog, tier):
     return h_squash.SquashHarness(prog, tier, 'chains', name='squash_chains_depth_u8')
 SQUASH_SPECS = [{'make': squash_graphs, 'time_limit': {'quick': 420, 'thorough': 2400}}, {'make': squash_chains, 'time_limit': {'quick': 300, 'thorough': 900}}]
 
+def pos(prog, tier):
+    return h_pos.PosHarness(prog, tier, 'inline')
+def pos_blocks(prog, tier):
+    return h_pos.PosHarness(prog, tier, 'blocks')
+POS_SPEC = {'make': pos, 'time_limit': {'quick': 300, 'thorough': 1200}}
+POSB_SPEC = {'make': pos_blocks, 'time_limit': {'quick': 300, 'thorough': 1200}}
+
 PROPS = {
     'C17': {'specs': SQUASH_SPECS, 'notes': COMMON + [
         'depth is a symbolic u8: 0..3 (quick) / 0..6 (thorough) on arbitrary reference graphs, all 256 values on chains and self-loops',
@@ -58,13 +65,13 @@ PROPS = {
     'C05': {'specs': [LIB_SPEC], 'notes': COMMON + [
         'oracle: independent scan of the input Documents with the statement\'s resolution rule (relative to the linking note\'s directory, .md ignored, '
         'external URLs excluded); notes in the library root only (sub-directory resolution is string/path code, see not-claimed C15)']},
-    'C13': {'specs': [KERNEL_SPEC, LINESTARTS_SPEC], 'notes': COMMON + [
+    'C13': {'specs': [KERNEL_SPEC, LINESTARTS_SPEC, POS_SPEC, POSB_SPEC], 'notes': COMMON + [
         'claimed for the conversion kernels: to_line_range / to_inline_range over every sorted line table (symbolic 64-bit entries) and byte range; '
         'line_starts over strings given by their line structure (symbolic line lengths, LF / CRLF / missing final newline), std str::lines / '
         'split_inclusive / split / len modelled on that structure',
         'which byte ranges pulldown-cmark reports for a block (e.g. a last line without newline) and UTF-16 vs byte columns are outside the claim']},
     'C01': {'specs': DOC_ALL, 'notes': COMMON + ['claimed at block level: every block/token of the input appears once, in order, in the same container, same kind']},
-    'C03': {'specs': DOC_ALL, 'notes': COMMON + ['claimed for blocks -> graph -> tree -> projection: every compiler-emitted panic edge / unwrap / expect / explicit panic reachable within the bounds is a violation']},
+    'C03': {'specs': DOC_ALL + [POSB_SPEC], 'notes': COMMON + ['claimed for blocks -> graph -> tree -> projection: every compiler-emitted panic edge / unwrap / expect / explicit panic reachable within the bounds is a violation']},
     'C07': {'specs': DOC_ALL, 'notes': COMMON + ['heading levels are symbolic u8 in 1..6; laws: order kept, emitted outline well nested, well-nested input keeps its levels, blocks stay under the nearest preceding heading']},
     'C20': {'specs': DOC_ALL + [LIB_SPEC], 'notes': COMMON + ['representation invariant checked on every arena produced within the bounds (establish step) and after every update_key step of the library harness (preserve step: RI, ids never reused, other notes untouched)']},
 }
